@@ -813,14 +813,22 @@ theorem lookup_ok {mc : List Char} {d : Dict Entry} (name : Str) (hstar : starKe
 
 /-- every set value of the entry stored under `k` was set, in the file, by an entry whose Host line is
     `k` or by `Host *` -/
-def Prov (parsed : List Entry) (d : Dict Entry) : Prop :=
+def Prov (G : Str → Prop) (parsed : List Entry) (d : Dict Entry) : Prop :=
   (∀ k ∈ d.keys, k ∈ allKeys parsed) ∧
   ∀ k e, (k, e) ∈ d →
     (e.hostname.truthy = true → ∃ e0 ∈ parsed, e0.hostname = e.hostname ∧ e0.hosts = k) ∧
     ∀ (i : Nat) (v : Val), e.attrs[i]? = some v → v.truthy = true →
-      ∃ e0 ∈ parsed, e0.attrs[i]? = some v ∧ (e0.hosts = k ∨ e0.hosts = starKey)
+      ∃ e0 ∈ parsed, e0.attrs[i]? = some v ∧ (e0.hosts = k ∨ e0.hosts = starKey ∨ G e0.hosts)
 
-theorem prov_fileDict (parsed : List Entry) : Prov parsed (fileDict parsed) := by
+/-- a pattern of a non-`*` Host line has an instance in the text of another Host line only if that line is `G`ood -/
+def CrossOnly (G : Str → Prop) (keys : List Str) : Prop :=
+  ∀ k1 ∈ keys, ∀ k2 ∈ keys, k2 ≠ k1 → k2 ≠ star → ∀ p ∈ splitWs k2,
+    ∀ pre mid suf : Str, k1 = pre ++ mid ++ suf → Matches p mid → G k2
+
+theorem crossOnly_of_noCross {keys : List Str} (h : NoCross keys) : CrossOnly (fun _ => False) keys :=
+  fun k1 h1 k2 h2 hne hns p hp pre mid suf hs hm => h k1 h1 k2 h2 hne hns p hp pre mid suf hs hm
+
+theorem prov_fileDict (G : Str → Prop) (parsed : List Entry) : Prov G parsed (fileDict parsed) := by
   refine ⟨fun k hk => (fileDict_keys parsed k).mp hk, ?_⟩
   intro k e hm
   obtain ⟨h1, h2⟩ := fileDict_mem parsed k e hm
@@ -834,23 +842,23 @@ theorem prov_fileDict (parsed : List Entry) : Prov parsed (fileDict parsed) := b
       rw [attrDefaults_falsy v hmem] at ht
       cases ht
 
-theorem prov_step {mc : List Char} {parsed : List Entry} (hnc : NoCross (allKeys parsed)) :
-    StepInv mc (Prov parsed) := by
+theorem prov_step {mc : List Char} {G : Str → Prop} {parsed : List Entry} (hnc : CrossOnly G (allKeys parsed)) :
+    StepInv mc (Prov G parsed) := by
   intro h d ks fm eh ef hP hks hf heh hef
   obtain ⟨hkeys, hprov⟩ := hP
   have hh : h ∈ d.keys := Dict.mem_keys_of_mem (Dict.get?_some_mem heh)
   have hfmk : fm ∈ d.keys := Dict.mem_keys_of_mem (Dict.get?_some_mem hef)
   -- the donor is the entry itself or `Host *`
-  have hfm : fm = h ∨ fm = starKey := by
+  have hfm : fm = h ∨ fm = starKey ∨ G fm := by
     rcases (fuzzy_ok_cases hf).2 with h1 | ⟨_, p, hp, n, hs⟩
-    · exact Or.inr h1
+    · exact Or.inr (Or.inl h1)
     · by_cases e1 : fm = h
       · exact Or.inl e1
       · by_cases e2 : fm = starKey
-        · exact Or.inr e2
-        · exfalso
-          obtain ⟨pre, mid, suf, hsplit, hm⟩ := search_instance hs
-          exact hnc h (hkeys h hh) fm (hkeys fm hfmk) e1 (by rw [← starKey_eq]; exact e2) p hp pre mid suf hsplit hm
+        · exact Or.inr (Or.inl e2)
+        · obtain ⟨pre, mid, suf, hsplit, hm⟩ := search_instance hs
+          exact Or.inr (Or.inr (hnc h (hkeys h hh) fm (hkeys fm hfmk) e1 (by rw [← starKey_eq]; exact e2) p hp pre mid suf
+            hsplit hm))
   refine ⟨by rw [keys_mergeInto heh]; exact hkeys, ?_⟩
   intro k e hm
   rcases Dict.mem_set hm with ⟨rfl, rfl⟩ | hm'
@@ -862,11 +870,13 @@ theorem prov_step {mc : List Char} {parsed : List Entry} (hnc : NoCross (allKeys
     · obtain ⟨_, ha2⟩ := hprov fm ef (Dict.get?_some_mem hef)
       obtain ⟨e0, he0, hv0, hk0⟩ := ha2 i v h1 ht
       refine ⟨e0, he0, hv0, ?_⟩
-      rcases hk0 with hk0 | hk0
-      · rcases hfm with e1 | e1
+      rcases hk0 with hk0 | hk0 | hk0
+      · rcases hfm with e1 | e1 | e1
         · exact Or.inl (by rw [hk0, e1])
-        · exact Or.inr (by rw [hk0, e1])
-      · exact Or.inr hk0
+        · exact Or.inr (Or.inl (by rw [hk0, e1]))
+        · exact Or.inr (Or.inr (by rw [hk0]; exact e1))
+      · exact Or.inr (Or.inl hk0)
+      · exact Or.inr (Or.inr hk0)
   · exact hprov k e hm'
 
 /-! ### own values survive merging -/
@@ -1280,3 +1290,339 @@ theorem search_complete (ts : List Tok) (rest : Str) (n : Nat) (h : matchAt ts r
     | none => exact ⟨n', hn'⟩
 
 end Scrapli.SSHConfig
+
+namespace Scrapli.SSHConfig
+open Scrapli.Gen.SSHConfig Scrapli.SSHConfig.Spec
+
+/-! ### `firstMin` is the FIRST candidate with the MINIMAL score (review item 1) -/
+
+/-- the step of the best-match loop (ssh_config.py: `if chars_replaced < best_match_chars_replaced`) -/
+def minStep (cur : Option (Nat × Str)) (m : Nat × Str) : Option (Nat × Str) :=
+  match cur with
+  | none => some m
+  | some c => if m.1 < c.1 then some m else some c
+
+theorem firstMin_eq_foldl (l : List (Nat × Str)) : firstMin l = l.foldl minStep none := rfl
+
+theorem minStep_fold_min (l : List (Nat × Str)) : ∀ (acc : Option (Nat × Str)) (m : Nat × Str),
+    l.foldl minStep acc = some m → (∀ c, acc = some c → m.1 ≤ c.1) ∧ ∀ x ∈ l, m.1 ≤ x.1 := by
+  induction l with
+  | nil =>
+    intro acc m h
+    simp only [List.foldl_nil] at h
+    exact ⟨fun c hc => by rw [h] at hc; cases hc; exact Nat.le_refl _, by simp⟩
+  | cons a l ih =>
+    intro acc m h
+    rw [List.foldl_cons] at h
+    obtain ⟨h1, h2⟩ := ih _ m h
+    cases acc with
+    | none =>
+      have ha : m.1 ≤ a.1 := h1 a rfl
+      exact ⟨by simp, fun x hx => by
+        rcases List.mem_cons.mp hx with rfl | hx
+        · exact ha
+        · exact h2 x hx⟩
+    | some c =>
+      simp only [minStep] at h1
+      by_cases hlt : a.1 < c.1
+      · simp only [hlt, ↓reduceIte] at h1
+        have ha : m.1 ≤ a.1 := h1 a rfl
+        refine ⟨fun c' hc' => by cases hc'; omega, fun x hx => ?_⟩
+        rcases List.mem_cons.mp hx with rfl | hx
+        · exact ha
+        · exact h2 x hx
+      · simp only [hlt, ↓reduceIte] at h1
+        have hc : m.1 ≤ c.1 := h1 c rfl
+        refine ⟨fun c' hc' => by cases hc'; exact hc, fun x hx => ?_⟩
+        rcases List.mem_cons.mp hx with rfl | hx
+        · omega
+        · exact h2 x hx
+
+theorem minStep_fold_first (l : List (Nat × Str)) : ∀ (acc : Option (Nat × Str)) (m : Nat × Str),
+    l.foldl minStep acc = some m →
+    acc = some m ∨ ∃ pre suf, l = pre ++ m :: suf ∧ (∀ x ∈ pre, m.1 < x.1) ∧ ∀ c, acc = some c → m.1 < c.1 := by
+  induction l with
+  | nil => intro acc m h; exact Or.inl h
+  | cons a l ih =>
+    intro acc m h
+    rw [List.foldl_cons] at h
+    rcases ih _ m h with h1 | ⟨pre, suf, hl, hpre, hacc⟩
+    · cases acc with
+      | none =>
+        simp only [minStep, Option.some.injEq] at h1
+        subst h1
+        exact Or.inr ⟨[], l, rfl, by simp, by simp⟩
+      | some c =>
+        simp only [minStep] at h1
+        by_cases hlt : a.1 < c.1
+        · simp only [hlt, ↓reduceIte, Option.some.injEq] at h1
+          subst h1
+          exact Or.inr ⟨[], l, rfl, by simp, fun c' hc' => by cases hc'; exact hlt⟩
+        · simp only [hlt, ↓reduceIte] at h1
+          exact Or.inl h1
+    · right
+      cases acc with
+      | none =>
+        have ha : m.1 < a.1 := hacc a rfl
+        refine ⟨a :: pre, suf, by simp [hl], ?_, by simp⟩
+        intro x hx
+        rcases List.mem_cons.mp hx with rfl | hx
+        · exact ha
+        · exact hpre x hx
+      | some c =>
+        simp only [minStep] at hacc
+        by_cases hlt : a.1 < c.1
+        · simp only [hlt, ↓reduceIte] at hacc
+          have ha : m.1 < a.1 := hacc a rfl
+          refine ⟨a :: pre, suf, by simp [hl], ?_, fun c' hc' => by cases hc'; omega⟩
+          intro x hx
+          rcases List.mem_cons.mp hx with rfl | hx
+          · exact ha
+          · exact hpre x hx
+        · simp only [hlt, ↓reduceIte] at hacc
+          have hc : m.1 < c.1 := hacc c rfl
+          refine ⟨a :: pre, suf, by simp [hl], ?_, fun c' hc' => by cases hc'; exact hc⟩
+          intro x hx
+          rcases List.mem_cons.mp hx with rfl | hx
+          · omega
+          · exact hpre x hx
+
+/-- `firstMin` returns a candidate of minimal score, and every candidate BEFORE it scores strictly more -/
+theorem firstMin_spec {l : List (Nat × Str)} {m : Nat × Str} (h : firstMin l = some m) :
+    (∀ x ∈ l, m.1 ≤ x.1) ∧ ∃ pre suf, l = pre ++ m :: suf ∧ ∀ x ∈ pre, m.1 < x.1 := by
+  rw [firstMin_eq_foldl] at h
+  refine ⟨(minStep_fold_min l none m h).2, ?_⟩
+  rcases minStep_fold_first l none m h with h1 | ⟨pre, suf, hl, hpre, _⟩
+  · cases h1
+  · exact ⟨pre, suf, hl, hpre⟩
+
+theorem minStep_fold_some (l : List (Nat × Str)) : ∀ c : Nat × Str, ∃ m, l.foldl minStep (some c) = some m := by
+  induction l with
+  | nil => intro c; exact ⟨c, rfl⟩
+  | cons a l ih =>
+    intro c
+    rw [List.foldl_cons]
+    simp only [minStep]
+    by_cases hlt : a.1 < c.1
+    · simp only [hlt, ↓reduceIte]; exact ih a
+    · simp only [hlt, ↓reduceIte]; exact ih c
+
+theorem firstMin_none {l : List (Nat × Str)} (h : firstMin l = none) : l = [] := by
+  cases l with
+  | nil => rfl
+  | cons a l =>
+    rw [firstMin_eq_foldl, List.foldl_cons] at h
+    obtain ⟨m, hm⟩ := minStep_fold_some l a
+    simp only [minStep] at h
+    rw [hm] at h
+    cases h
+
+end Scrapli.SSHConfig
+
+namespace Scrapli.SSHConfig
+open Scrapli.Gen.SSHConfig Scrapli.SSHConfig.Spec
+
+/-! ### what `Host *` sets reaches every entry (review item 2: the one inheritance that always works) -/
+
+/-- attribute number `i` of the entry, if present at all, is set -/
+def Filled (i : Nat) (e : Entry) : Prop := ∀ w, e.attrs[i]? = some w → w.truthy = true
+
+/-- the `*` entry of the table still carries the value `v` at position `i` -/
+def StarHas (i : Nat) (v : Val) (d : Dict Entry) : Prop := ∃ e, d.get? starKey = some e ∧ e.attrs[i]? = some v
+
+theorem mergeAttrs_filled_of_other (a : List Val) : ∀ (b : List Val) (i : Nat) (v : Val),
+    b[i]? = some v → v.truthy = true → ∀ w, (mergeAttrs a b)[i]? = some w → w.truthy = true := by
+  induction a with
+  | nil => intro b i v _ _ w h; simp [mergeAttrs] at h
+  | cons x xs ih =>
+    intro b i v hb hv w h
+    cases b with
+    | nil => simp at hb
+    | cons y ys =>
+      simp only [mergeAttrs] at h
+      cases i with
+      | zero =>
+        simp only [List.getElem?_cons_zero, Option.some.injEq] at hb h
+        subst hb
+        by_cases hx : x.truthy = true
+        · simp only [hx, ↓reduceIte] at h; rw [← h]; exact hx
+        · simp only [hx, Bool.false_eq_true, ↓reduceIte] at h; rw [← h]; exact hv
+      | succ j =>
+        simp only [List.getElem?_cons_succ] at hb h
+        exact ih ys j v hb hv w h
+
+theorem mergeAttrs_filled_keep (a b : List Val) (i : Nat)
+    (ha : ∀ w, a[i]? = some w → w.truthy = true) : ∀ w, (mergeAttrs a b)[i]? = some w → w.truthy = true := by
+  intro w h
+  rcases mergeAttrs_get a b i w h with h1 | ⟨_, w', hw', hf⟩
+  · exact ha w h1
+  · rw [ha w' hw'] at hf; cases hf
+
+theorem starHas_step {i : Nat} {v : Val} (hv : v.truthy = true) {d : Dict Entry} {h : Str} {eh ef : Entry}
+    (hs : StarHas i v d) (heh : d.get? h = some eh) : StarHas i v (mergeInto d h eh ef) := by
+  obtain ⟨e, he, hi⟩ := hs
+  unfold mergeInto StarHas
+  rw [Dict.get?_set]
+  by_cases hk : starKey = h
+  · subst hk
+    rw [heh] at he
+    cases he
+    refine ⟨{ eh with attrs := mergeAttrs eh.attrs ef.attrs }, by simp, ?_⟩
+    exact mergeAttrs_keep _ _ i v hi hv
+  · exact ⟨e, by simp [hk, he], hi⟩
+
+theorem inheritLoop_fills {mc : List Char} {h : Str} {i : Nat} {v : Val} (hv : v.truthy = true) :
+    ∀ (n : Nat) (d : Dict Entry) (cur : List Str) (d' : Dict Entry), StarHas i v d →
+      (starKey ∈ cur ∨ ∀ e, d.get? h = some e → Filled i e) →
+      inheritLoop mc h n d cur = .ok d' → ∀ e, d'.get? h = some e → Filled i e := by
+  intro n
+  induction n with
+  | zero => intro d cur d' _ _ hr; simp [inheritLoop] at hr
+  | succ n ih =>
+    intro d cur d' hs hJ hr
+    unfold inheritLoop at hr
+    generalize hK : (if cur.isEmpty then d.keys else cur) = K at hr
+    cases hf : fuzzy mc h K with
+    | error e => simp [hf, bind, Except.bind] at hr
+    | ok fm =>
+      cases heh : d.getE h with
+      | error e => simp [hf, heh, bind, Except.bind] at hr
+      | ok eh =>
+        cases hef : d.getE fm with
+        | error e => simp [hf, heh, hef, bind, Except.bind] at hr
+        | ok ef =>
+          simp only [hf, heh, hef, bind, Except.bind] at hr
+          have heh' := Dict.getE_ok heh
+          have hef' := Dict.getE_ok hef
+          have hs1 : StarHas i v (mergeInto d h eh ef) := starHas_step hv hs heh'
+          have hget : (mergeInto d h eh ef).get? h =
+              some { eh with attrs := mergeAttrs eh.attrs ef.attrs } := by
+            unfold mergeInto; rw [Dict.get?_set]; simp
+          -- when `*` is still to come, the donor is in `cur`
+          have hfm_cur : starKey ∈ cur → fm ∈ cur := by
+            intro hsc
+            have hne : cur.isEmpty = false := by
+              cases cur with
+              | nil => simp at hsc
+              | cons _ _ => rfl
+            rw [hne] at hK
+            simp only [Bool.false_eq_true, ↓reduceIte] at hK
+            rcases (fuzzy_ok_cases hf).2 with h1 | ⟨h1, _⟩
+            · rw [h1]; exact hsc
+            · rw [← hK] at h1; exact h1
+          -- the merged entry is filled as soon as the donor was `*` or the entry was filled before
+          have hfilled_of : (fm = starKey ∨ ∀ e, d.get? h = some e → Filled i e) →
+              Filled i { eh with attrs := mergeAttrs eh.attrs ef.attrs } := by
+            rintro (h1 | h1)
+            · obtain ⟨e, he, hi⟩ := hs
+              rw [h1, he] at hef'
+              cases hef'
+              exact mergeAttrs_filled_of_other _ _ i v hi hv
+            · exact mergeAttrs_filled_keep _ _ i (h1 eh heh')
+          by_cases hc : cur.contains fm = true
+          · simp only [hc, ↓reduceIte] at hr
+            refine ih _ _ d' hs1 ?_ hr
+            rcases hJ with hsc | hfl
+            · by_cases e1 : fm = starKey
+              · right
+                intro e he
+                rw [hget] at he
+                cases he
+                exact hfilled_of (Or.inl e1)
+              · left
+                exact (List.mem_erase_of_ne (fun e => e1 e.symm)).mpr hsc
+            · right
+              intro e he
+              rw [hget] at he
+              cases he
+              exact hfilled_of (Or.inr hfl)
+          · simp only [hc, Bool.false_eq_true, ↓reduceIte, Except.ok.injEq] at hr
+            subst hr
+            intro e he
+            have hget' : (d.set h { eh with attrs := mergeAttrs eh.attrs ef.attrs }).get? h =
+                some { eh with attrs := mergeAttrs eh.attrs ef.attrs } := hget
+            rw [hget'] at he
+            cases he
+            rcases hJ with hsc | hfl
+            · exact absurd (by simpa using hfm_cur hsc) hc
+            · exact hfilled_of (Or.inr hfl)
+
+/-- invariant of the whole merge: `*` keeps its value and the entries already merged stay filled -/
+def FillInv (i : Nat) (v : Val) (done : List Str) (d : Dict Entry) : Prop :=
+  StarHas i v d ∧ ∀ k ∈ done, ∀ e, d.get? k = some e → Filled i e
+
+theorem fill_step {mc : List Char} {i : Nat} {v : Val} (hv : v.truthy = true) (done : List Str) :
+    StepInv mc (FillInv i v done) := by
+  intro h d ks fm eh ef hP _ _ heh _
+  obtain ⟨hs, hd⟩ := hP
+  refine ⟨starHas_step hv hs heh, ?_⟩
+  intro k hk e he
+  unfold mergeInto at he
+  rw [Dict.get?_set] at he
+  by_cases e1 : k = h
+  · subst e1
+    simp only [↓reduceIte, Option.some.injEq] at he
+    subst he
+    exact mergeAttrs_filled_keep _ _ i (hd k hk eh heh)
+  · simp only [e1, ↓reduceIte] at he
+    exact hd k hk e he
+
+theorem foldlM_fills {mc : List Char} {i : Nat} {v : Val} (hv : v.truthy = true) :
+    ∀ (ks done : List Str) (d d' : Dict Entry), FillInv i v done d →
+      ks.foldlM (mergeStep mc) d = .ok d' → FillInv i v (done ++ ks) d' := by
+  intro ks
+  induction ks with
+  | nil =>
+    intro done d d' hP hr
+    simp only [List.foldlM_nil, pure, Except.pure, Except.ok.injEq] at hr
+    subst hr; simpa using hP
+  | cons k ks ih =>
+    intro done d d' hP hr
+    rw [List.foldlM_cons] at hr
+    cases hs : mergeStep mc d k with
+    | error e => simp [hs, bind, Except.bind] at hr
+    | ok d1 =>
+      simp only [hs, bind, Except.bind] at hr
+      obtain ⟨hP1, _⟩ := inheritLoop_inv (fill_step (mc := mc) hv done) k _ d d.keys d1 hP (fun _ hk => hk) hs
+      have hstar : starKey ∈ d.keys := by
+        obtain ⟨e, he, _⟩ := hP.1
+        exact Dict.mem_keys_of_mem (Dict.get?_some_mem he)
+      have hk1 : ∀ e, d1.get? k = some e → Filled i e :=
+        inheritLoop_fills hv _ d d.keys d1 hP.1 (Or.inl hstar) hs
+      have hP2 : FillInv i v (done ++ [k]) d1 := by
+        refine ⟨hP1.1, ?_⟩
+        intro k' hk' e he
+        rcases List.mem_append.mp hk' with h1 | h1
+        · exact hP1.2 k' h1 e he
+        · simp only [List.mem_singleton] at h1
+          subst h1
+          exact hk1 e he
+      have := ih (done ++ [k]) d1 d' hP2 hr
+      simpa [List.append_assoc] using this
+
+end Scrapli.SSHConfig
+
+namespace Scrapli.SSHConfig.Spec
+
+theorem namesB_sound {key name : Str} (h : namesB key name = true) : Names key name := by
+  unfold namesB at h
+  simp only [Bool.or_eq_true, beq_iff_eq, List.any_eq_true] at h
+  rcases h with (h | h) | ⟨p, hp, hm⟩
+  · exact Or.inl h
+  · exact Or.inr (Or.inl h)
+  · exact Or.inr (Or.inr ⟨p, hp, (globMatch_iff p name).mp hm⟩)
+
+theorem crossNamingB_sound {keys : List Str} {name : Str} (h : crossNamingB keys name = true) :
+    CrossNaming keys name := by
+  unfold crossNamingB at h
+  simp only [List.all_eq_true, Bool.or_eq_true, beq_iff_eq, Bool.not_eq_true'] at h
+  intro k1 hk1 k2 hk2 hne hns p hp pre mid suf hs hm
+  rcases h k1 hk1 k2 hk2 with ((h1 | h1) | h1) | h1
+  · exact absurd h1 hne
+  · exact absurd h1 hns
+  · exact namesB_sound h1
+  · have := h1 p hp mid (mem_infixes.mpr ⟨pre, suf, hs⟩)
+    rw [(globMatch_iff p mid).mpr hm] at this
+    cases this
+
+end Scrapli.SSHConfig.Spec
